@@ -306,7 +306,7 @@ def run(ctx: Ctx) -> None:
         "un-typed properties and silently dropped call/name/container defaults are outside the domain (the statement is ambiguous there)",
         "docstring style PLAINTEXT",
     ]
-    failures = engine.search(ctx, MOD, shards=ctx.n(16, 96), examples=ctx.n(5, 30))
+    failures = engine.search(ctx, MOD, shards=ctx.n(16, 96), examples=ctx.n(10, 30))
     engine.report_failures(ctx, MOD, failures)
     engine.replay_known(ctx, MOD)
 
